@@ -549,3 +549,87 @@ SPECS["C14"] = {
     "assumptions": ["one op is atomic (one poll, one drop step, one delivery)",
                     "fewer than 2^64 operations where a statement says no_wrap"],
 }
+
+# flipped by the lead once the generated client stubs return an error instead of `unreachable!()`
+# for a response of another method's variant (until then that case class panics on the real code)
+C16_WRONG_VARIANT = False
+
+SPECS["C16"] = {
+    "pid": "C16",
+    "harness": "c16",
+    "translator": wire_translator,
+    "runner": wire_runner,
+    "coq_targets": ["Properties/C16.vo", "Checks/C16check.vo", "GenChecks/C16.vo"],
+    "gen_obligations": ["gen_max_timeout", "gen_default_deadline", "gen_rfc3339_cap", "gen_deserialize_checked_add",
+                        "gen_timers_clamped", "gen_deadline_field_saturates", "gen_client_message_shape",
+                        "gen_response_shape"],
+    "cases_header": ("From Coq Require Import List NArith ZArith Bool.\nImport ListNotations.\n"
+                     "From TarpcV Require Import Base Schema Time Framing Hostile Checks.C16check.\n"
+                     "Local Open Scope N_scope.\n"),
+    "case_term": lambda c: f"({c['cfg']}, {c['ops']}, {c['obs']})",
+    "gen_args": ["--wrong-variant"] if C16_WRONG_VARIANT else [],
+    "run_args": ["--wrong-variant"] if C16_WRONG_VARIANT else [],
+    "quick": {"count": 500},
+    "thorough": {"count": 12000},
+    "sweeps": [[]],
+    "shrink_budget": 40,
+    "known_sigs": {"eof-after-length-header":
+                   lambda small: small.startswith("mode=stream") and ",cut=4|" in small and " G:" not in small
+                   and "|G:" not in small},
+    "known_witness": {"eof-after-length-header":
+                      "mode=stream,sub=none,codec=bincode,rd=2.0.3,cut=4|"
+                      "F:0107000000000000000000000000000000030001 F:0107000000000000000000000000000000030001 Z"},
+    "nontrivial": lambda c: any(t in c["tags"] for t in (
+        "beyond-timer-range", "beyond-year-9999", "overflows-instant", "nanos-carry", "deadline-omitted",
+        "duplicate-flood", "past-deadline", "garbage", "cut", "cut-after-header", "payload-rejected", "wrong-variant")),
+    "rule": "one script = one real endpoint under one of three subscriber configurations (none, tracing_subscriber fmt at "
+            "TRACE, OpenTelemetry SDK tracer through tracing-opentelemetry): SERVER (BaseChannel + Requests over the real "
+            "serde transport, JSON or bincode): 3..10 frames written WITHOUT tarpc's serializer, so that every (secs : u64, "
+            "nanos : u32) can be sent: requests with remaining times from {0, 1 s, 1 year, 1 year + 1 s, the timer range "
+            "2^36-1 ms +- 1, 3 years, 100 years, year 9999 +- 1 s, i64::MAX s +- 1, u64::MAX} x nanos {0, 1, 10^9 - 1, 10^9, "
+            "2 * 10^9 - 1, u32::MAX} or omitted (JSON), echo or never-ending handlers, reuse of ids in flight, floods of 2..300 "
+            "duplicates, cancels for used and never-used ids (boundary ids 0, 250, 251, 2^16, 2^32, 2^64 - 1), always ending "
+            "with a probe request that must be served; CLIENT (client::new dispatch): calls whose deadline is now +/- the same "
+            "durations, responses for in-flight and never-used ids, a final probe call; STREAM: 1..3 frames (valid payloads, "
+            "bit flips, truncated / random / extended payloads), unframed garbage (oversize headers, random bytes, short "
+            "tails), the stream cut inside its last frame at 1, 2, 3, 4, 5, 6, 9 or 17 bytes, into both decoders under "
+            "byte-at-a-time / straddling / coalesced reads. Every poll of tarpc code runs under catch_unwind. Compared: every "
+            "observation (handler started / served / aborted, read error, panic, call sent with its wire deadline, call "
+            "completion, items yielded and kind of stream end). non-trivial = a boundary beyond the timer range / year 9999 / "
+            "the Instant range, a carrying nanos value, an omitted deadline, a duplicate flood, a deadline in the past, "
+            "garbage, a cut, or a payload the codec rejects; distinct = distinct script text; thorough adds the bounded-"
+            "exhaustive family: all 16 x 6 (secs, nanos) pairs x 3 subscribers x 2 codecs for the server and 16 x 2 for the "
+            "client, and every cut position 1..39 of a two-frame stream under both codecs",
+    "trusted_base": COMMON_TB + WIRE_TB + [
+        "panic detection: std::panic::catch_unwind around every poll of tarpc code, with the panic hook silenced",
+    ],
+    "level_text": "Theorems C16_no_panic_run and C16_monitor: for every script of well-typed peer messages (every u64 id, "
+                  "every wire deadline in u64 x u32 or omitted, echo / never-ending handlers, duplicate floods, cancels and "
+                  "responses for any id), every local caller deadline that is an Instant, every stream of frames and garbage "
+                  "under every chunking and cut, and every subscriber configuration, the model of the endpoint never reaches "
+                  "Panic, serves every probe, sends every call and ends a stream cut inside a frame with an error; they rest on "
+                  "C16_decode_no_panic, C16_arm_no_panic, C16_field_no_panic, C16_server_no_panic, C16_client_no_panic over "
+                  "EVERY Duration in u64 x [0,10^9), EVERY Instant chosen by a caller and every clock value in the stated "
+                  "environment ranges. The pre-fix behaviours are documented by C16_*_prefix_refuted with concrete witnesses. "
+                  "The constants and the three repairs the model relies on are re-derived from /repo on every run "
+                  "(GenChecks/C16.v); the model's observations are compared with a real server, a real client dispatch and "
+                  "the real framed decoders inside Coq on every generated script.",
+    "level_note": "Trusted: Coq kernel, vm_compute, translator, Rust harness, Python driver. Modelled not verified: "
+                  "std::time arithmetic, tokio_util DelayQueue's range and ms rounding, humantime's RFC 3339 range, "
+                  "LengthDelimitedCodec. NOT modelled: payload decoding by bincode/serde_json on malformed input (their "
+                  "panic-freedom is tested only: random and mutated frames under catch_unwind). Residual boundary (assumption, "
+                  "lemma C16_arm_lag_refuted): DelayQueue::insert still panics on a connection whose timer queue has been "
+                  "quiet for more than 2^36-1 ms minus MAX_TIMEOUT (about 430 days) before a request arrives. Known finding "
+                  "(KNOWN_FINDINGS eof-after-length-header, lemma C16_truncation_header_refuted): a stream cut exactly after "
+                  "a 4-byte length header ends cleanly instead of with an error. The wrong-variant response class "
+                  "(generated client stubs) is generated only when C16_WRONG_VARIANT is set. Correspondence is sampled.",
+    "design_ref": "DESIGN.md section 6 (C16)",
+    "assumptions": [
+        "monotonic clock: Instant::now() stays at least MAX_TIMEOUT + 1 s below i64::MAX seconds (mono_env)",
+        "wall clock: SystemTime::now() is not before 1970-01-01 (wall_env)",
+        "timer queue lag: when a request arrives, the endpoint's DelayQueue was created, or last fired a timer, at most "
+        "dq_lag_max = 2^36 - 1 - 31 536 000 000 = 37 183 476 735 ms (about 430 days) earlier (dq_env); beyond it "
+        "DelayQueue::insert panics although the timeout is clamped (C16_arm_lag_refuted)",
+        "std::time::Instant::now() and tokio's clock agree (both follow the harness's virtual clock)",
+    ],
+}
